@@ -1,0 +1,10 @@
+//go:build verif
+
+// Machine-checked contracts for govc (see /verif/DESIGN.md). Comments only;
+// compiled only with the build tag "verif".
+
+package httpcache
+
+// C10: a response is stored only while fresh, with exactly its remaining freshness lifetime.
+//@ func (*RoundTripper).cacheResponse
+//@   props C10
